@@ -11,6 +11,7 @@ import (
 	"os"
 	"reflect"
 	"strings"
+	"time"
 
 	. "adharness/common"
 
@@ -48,6 +49,7 @@ const (
 	K_OK    = 0
 	K_PANIC = 1
 	K_ERR   = 2
+	K_HANG  = 7 // the operation did not return within the watchdog deadline (no model outcome equals it)
 	SEP     = -7771
 	HP      = 2147483647
 	C_PANIC = 99991 // a read panicked
@@ -165,7 +167,19 @@ func dense(l []int64) ad.Vector {
 type World struct {
 	Type string
 	V    []ad.Vector
+	// Hung: an operation on this world did not return (watchdog); the world is abandoned (its
+	// goroutine may still be spinning inside the library): nothing is executed or observed any more
+	Hung     bool
+	lastObs  []VecObs
+	lastHash int64
 }
+
+// per-operation watchdog: a library call that loops for ever (e.g. an AVL iterator caught in a
+// parent-pointer cycle inside Sort / Append / skip()) must not hang the harness
+var opDeadline = 3 * time.Second
+var hungTotal = 0
+
+const maxHung = 3 // after that many hung operations in one process no further history is started / shrunk
 
 func (w *World) operand(u int, l []int64) ad.Vector {
 	if u < 0 {
@@ -176,7 +190,30 @@ func (w *World) operand(u int, l []int64) ad.Vector {
 
 // execOne runs one operation on the implementation; panics are recovered and
 // reported as outcome kind.
-func (w *World) execOne(o Op) (kind int64, payload []int64) {
+func (w *World) execOne(o Op) (int64, []int64) {
+	if w.Hung {
+		return K_HANG, []int64{}
+	}
+	type res struct {
+		k int64
+		p []int64
+	}
+	ch := make(chan res, 1)
+	go func() {
+		k, p := w.execRaw(o)
+		ch <- res{k, p}
+	}()
+	select {
+	case r := <-ch:
+		return r.k, r.p
+	case <-time.After(opDeadline):
+		w.Hung = true
+		hungTotal++
+		return K_HANG, []int64{}
+	}
+}
+
+func (w *World) execRaw(o Op) (kind int64, payload []int64) {
 	payload = []int64{}
 	defer func() {
 		if r := recover(); r != nil {
@@ -402,12 +439,16 @@ func hashList(h int64, l []int64) int64 {
 }
 
 func (w *World) observe() ([]VecObs, int64) {
+	if w.Hung {
+		return w.lastObs, w.lastHash
+	}
 	obs := make([]VecObs, len(w.V))
 	h := int64(17)
 	for i, v := range w.V {
 		obs[i] = observeVec(v)
 		h = hashList(h, obs[i].Flat)
 	}
+	w.lastObs, w.lastHash = obs, h
 	return obs, h
 }
 
@@ -474,7 +515,7 @@ func coqCase(c Case) string {
 	return "(" + List(ops) + ",\n   " + List(outs) + ")"
 }
 
-const hdr = "From Coq Require Import ZArith List Bool. Import ListNotations.\nFrom ADV Require Import C11.Model C11.Corr.\nOpen Scope Z_scope.\n"
+const hdr = "From Coq Require Import ZArith List Bool. Import ListNotations.\nFrom ADV Require Import C11.Model C11.Corr C11.Corr2.\nOpen Scope Z_scope.\n"
 
 const rule = "random histories (<= 40 ops, <= 6 vectors of dim 0..12 growing by Append, values in -8..8, element type drawn from all nine sparse types) over New/At/SetAt(incl. zeros)/ConstAt/Set(sparse|dense)/SET/Reset/ReverseOrder/Swap/Permute/Sort/Slice/AppendVector(sparse|dense)/AppendScalar/Map/MapSet/Reduce/ConstIterator(full|partial|from)/Clone/JointIterator/JOINT3_ITERATOR; 1 in 5 histories also draws malformed ops (out-of-range indices, wrong-length or non-permutation pi, Swap/Slice out of range, Map with f(0)!=0, dimension mismatch); a case is non-trivial iff it contains >= 8 mutating ops, >= 1 index-rebuilding op (Permute/Sort/ReverseOrder), >= 1 sharing op (Slice/AppendVector) and some vector held a stored zero or a value-less index key at some step; distinct = distinct (type, op list)"
 
@@ -507,6 +548,9 @@ func main() {
 	case o.Extra == "known":
 		known(o)
 		return
+	case o.Extra == "held2" || strings.HasPrefix(o.Extra, "held2:"): // stale held iterators with the observed validity bit (held2.go)
+		held2Main(o)
+		return
 	case strings.HasPrefix(o.Extra, "held"): // held iterators interleaved with mutators (held.go)
 		heldMain(o)
 		return
@@ -527,14 +571,14 @@ func main() {
 		}
 		c := rp.Case
 		c.Outs = execute(c)
-		w := NewCaseWriter(o.Out, "replay", hdr, "mism", 1000)
+		w := NewCaseWriter(o.Out, "replay", hdr, "mism2", 1000)
 		w.Type = "case"
 		w.Add(coqCase(c), c, "replay", true)
 		w.Flush()
 		return
 	}
 	per := 12
-	w := NewCaseWriter(o.Out, "cases", hdr, "mism", per)
+	w := NewCaseWriter(o.Out, "cases", hdr, "mism2", per)
 	w.Type = "case"
 	w.Rule = rule
 	for _, c := range readCorpus(o.Extra) {
@@ -543,7 +587,7 @@ func main() {
 		w.Count("corpus")
 	}
 	rng := NewRng(o.Seed)
-	for k := 0; k < o.N; k++ {
+	for k := 0; k < o.N && hungTotal < maxHung; k++ {
 		tn := typeNames[k%len(typeNames)]
 		if k%2 == 0 {
 			tn = typeNames[(k/2)%3] // float64 / int / real64 get half of the cases
@@ -552,6 +596,15 @@ func main() {
 		w.Add(coqCase(c), c, tn+fmt.Sprint(c.Ops), st.nontrivial())
 		w.Count("type:" + tn)
 	}
+	// directed stream: small vectors / small AVL trees (see smallMode in gen.go)
+	smallMode = true
+	for k := 0; k < o.N/6 && hungTotal < maxHung; k++ {
+		tn := typeNames[k%3]
+		c, st := genCase(rng.Split(), tn, false, w)
+		w.Add(coqCase(c), c, "small:"+tn+fmt.Sprint(c.Ops), st.mut >= 4 && st.share >= 1)
+		w.Count("stream:small")
+	}
+	smallMode = false
 	if err := w.Flush(); err != nil {
 		Die("%v", err)
 	}
